@@ -71,6 +71,23 @@ CHECKS = {
         "model equality / deep type.",
         "DESIGN.md section 5 C08",
     ),
+    "C12": (
+        "differential testing across fresh processes with different "
+        "PYTHONHASHSEED values + in-process metamorphic testing (permuted "
+        "collection literals) over Hypothesis-generated programs",
+        "Programs send generated sets/maps of strings and mixed scalars "
+        "through about 100 iteration / conversion / spread / destructuring / "
+        "rendering / library paths; each batch is interpreted in 8 (thorough "
+        "32) fresh subprocesses with different hash seeds plus this process "
+        "and all observable outcomes must be identical; permuting every "
+        "collection literal must not change the outcome either. The workers "
+        "report the raw host order of each program's strings so that the "
+        "fraction of programs whose host order really varied is measured.",
+        "Trusted: the outcome serialisation (value rendering, stdout, error "
+        "value and message); a finite number of seeds; one open finding "
+        "(dates mixed with numbers) excluded by construction.",
+        "DESIGN.md section 5 C12",
+    ),
     "C13": (
         "exhaustive pool sweep (itertools.product over a 29-value pool, "
         "multiprocessing) of every function object and syntactic form with an "
